@@ -72,10 +72,10 @@ Fixpoint ops_wf_b (t : list Z) (ops : list (op Z)) : bool :=
   | o :: r =>
       (match o with
        | OEqualAt i _ | OReplace i _ | ORemove i | OGet i | OYank i | OShove i
-       | OPopVec i | OCopy i | OCopyVec i => (0 <=? i) && (i <? 18446744073709551615)
+       | OPopVec i | OCopy i | OCopyVec i => (0 <=? i) && (i <=? 18446744073709551615)
        | OSwap i j => (0 <=? i) && (i <? len t) && (0 <=? j) && (j <? len t)
        | _ => true
-       end) && ops_wf_b (fst (spec_step Z.eqb Z.eqb t o)) r
+       end) && ops_wf_b (fst (spec_step_c Z.eqb Z.eqb t o)) r
   end.
 
 Definition pm_stack_check (s : sx) : sx :=
@@ -84,7 +84,7 @@ Definition pm_stack_check (s : sx) : sx :=
       match un_stack_case c with
       | Some (p, init, ops) =>
           if ops_wf_b (rev init) ops then
-            let r := spec_run Z.eqb Z.eqb (rev init) ops in
+            let r := spec_run_c Z.eqb Z.eqb (rev init) ops in
             sx_bool (sx_eqb observed (SL [SZ 0; SL [sx_list SZ (fst r); sx_list sx_out (snd r)]]))
           else SZ 2
       | None => sx_bad
